@@ -141,7 +141,27 @@ def main(argv=None):
                 f.write(f"--- {pid} {a.tier}\n{traceback.format_exc()}\n")
             ctx.cleanup()
             ctx = Ctx(pid, a.tier, seed)
-            res = mod.run(ctx)
+            try:
+                res = mod.run(ctx)
+            except Exception as ex2:
+                # the same failure twice.  If the exception was raised inside the library (innermost frame under the tree being
+                # checked) at a call this check makes for its property, the library did something no execution of the unchanged
+                # tree does: report it as a violation with the traceback as its replay; otherwise it is the machinery's fault.
+                tb = traceback.format_exc()
+                first = tb.split("The above exception was the direct cause")[0]       # a worker's traceback comes first
+                frames = [l.strip() for l in first.splitlines() if l.strip().startswith("File ")]
+                lib = [l for l in frames if common.REPO.rstrip("/") + "/" in l]
+                if lib and frames and (frames[-1] in lib or any(common.REPO.rstrip("/") + "/nmea2000/" in l for l in frames[-3:])):
+                    res = {"coverage": {"states": 1, "transitions": 1, "traces_validated_against_impl": 1, "exhaustive": False,
+                                        "bound_completed": "stopped: the library raised an exception the check does not expect",
+                                        "samples": [{"note": "see violation"}]},
+                           "violations": [{"kind": "library_raised_unexpectedly", "facts": {"error": type(ex2).__name__},
+                                           "signature": f"crash:{type(ex2).__name__}:{lib[-1][:80]}",
+                                           "detail": f"{type(ex2).__name__}: {ex2} raised inside the library at {lib[-1][:160]}",
+                                           "case": {"traceback": tb[-3000:]}}],
+                           "assumptions": []}
+                else:
+                    raise
     except Exception:
         traceback.print_exc()
         print(f"HARNESS-ERROR property={pid}", file=sys.stderr)
